@@ -57,7 +57,19 @@ def main(argv):
     except MachineryError as e:
         print(f"MACHINERY-ERROR property={pid}: {e}")
         return 2
-    except Exception:
+    except Exception as e:
+        # An exception raised INSIDE the library (or a call that exceeded its deadline) on an input of the property's
+        # domain is a property violation, not a harness failure: on the unchanged tree no such exception occurs.
+        from .core import REPO, Deadline
+        tb = traceback.extract_tb(e.__traceback__)
+        inside = [f for f in tb if os.path.abspath(f.filename).startswith(os.path.abspath(REPO) + os.sep)]
+        if inside or isinstance(e, Deadline):
+            where = inside[-1] if inside else tb[-1]
+            text = "".join(traceback.format_exception(type(e), e, e.__traceback__))
+            print(text[-3000:])
+            ctx.violation(f"unexpected-exception:{type(e).__name__}:{os.path.basename(where.filename)}:{where.name}",
+                          f"the implementation raised {type(e).__name__}: {e} (or hung) on an in-domain call", {"traceback": text})
+            return ctx.finish()
         traceback.print_exc()
         print(f"MACHINERY-ERROR property={pid}: unexpected exception in driver")
         return 2
